@@ -3,5 +3,9 @@
 (* case and the outcome the specification allows are printed - the case list the driver renders (M2).  *)
 EXTENDS Malformed, Json
 
+\* request-list alphabets: quick tier (the tokens that distinguish "what is in front of a sleep"), negative controls
+QuickReqTokens == {"R1", "R0", "Rneg", "S", "S0", "Sneg", "Sbad"}
+NegReqTokens   == {"R1", "R0", "S"}
+
 Export == Done => PrintT(<<"VERIF", ToJson([c |-> cs, res |-> st.res, out |-> st.out])>>)
 =============================================================================
